@@ -441,6 +441,11 @@ def check_store_scoping(prog, rep, r_enum, r_write, r_whole):
                                       f'{meth}() is applied to the shared store graph outside the storage classes')
                     elif meth in ('neighbors', 'subgraph', 'copy', 'number_of_nodes', 'has_node', 'has_edge', 'degree'):
                         pass
+                    elif meth == 'edges':
+                        # edges(<internal id>, data=True): the links of ONE node; the node must come from a scoped lookup
+                        if not (n.args and id_expr_is_scoped(n.args[0], scoped)):
+                            rep.violation(r_write, loc(mod, n), fq, norm(n, 120), 'edges() of the shared store graph without an internal id from a scoped lookup: '
+                                                                                  'the links of every graph in the store')
                     else:
                         rep.violation(r_write, loc(mod, n), fq, norm(n, 120), f'unrecognised operation {meth}() on the shared store graph')
                 # the store graph passed as an argument
